@@ -306,14 +306,21 @@ func c09shiftModel(cc *Ctx, rule, ruleState string) {
 			switch {
 			case match == "":
 				c.Bad(rule, cons, pos, "the %s shift is neither direction of the Helmert formula: %s (translation t = p0..p2, rotations r = p3..p5, scale m = p6 as stored in the datum)", dcase.what, firstDiff)
-			case found[match] != nil:
-				c.Bad(rule, cons, pos, "both %s and %s compute the %s shift %s: shifting to WGS84 and back does not return the starting point", found[match].Name(), sf.fn.Name(), dcase.what, match)
 			case role[sf.fn] != "" && role[sf.fn] != match:
 				c.Bad(rule, cons, pos, "%s is the shift %s for seven parameters and the shift %s for three", sf.fn.Name(), role[sf.fn], match)
 			default:
-				found[match] = sf.fn
+				// several functions may compute the same direction (a method and the helper it forwards
+				// to); that the pair used by the whole shift is "to, then from" is decided below
+				if found[match] == nil {
+					found[match] = sf.fn
+				}
 				role[sf.fn] = match
 				c.OK(rule, cons, pos, "equals the %s shift %s as a rational term in (X, Y, Z) and the stored parameters", dcase.what, match)
+			}
+		}
+		for _, s := range sp {
+			if found[s.name] == nil {
+				c.Bad(rule, "proj#shift("+dcase.what+", "+s.name+")", token.NoPos, "no function of the package computes the %s shift %s (one datum and three ordinates in, three out, equal to the Helmert formula as a rational term)", dcase.what, s.name)
 			}
 		}
 	}
